@@ -200,7 +200,7 @@ func check07One(c Case07, scheme string, r *core.Rec) {
 		r.Class("value-oracle")
 	case c.Expect == "reject":
 		if ok {
-			r.Failf("%s: a number behind non-numeric labels must be rejected but gives %q", where, got)
+			r.Failf("%s: ends in a number but is no IPv4 address (non-numeric labels in front, or more than four parts): it must be rejected but gives %q", where, got)
 			return
 		}
 		r.Class("reject-oracle")
@@ -285,7 +285,7 @@ func escapeSome(t *rapid.T, s string) string {
 
 var c07Values = []uint32{0, 1, 255, 256, 65535, 65536, 16777215, 16777216, 4294967295, 2130706433, 3232235777, 0x7f000001, 0x01020304, 0x00ff00ff}
 var c07Boundary = []string{"255", "256", "1.255", "1.256", "255.255", "255.256", "1.65535", "1.65536", "1.1.255", "1.1.256", "1.1.65535", "1.1.65536", "1.1.1.255", "1.1.1.256",
-	"16777215", "16777216", "1.16777215", "1.16777216", "4294967295", "4294967296", "256.1", "256.1.1.1", "1.256.1.1", "1.1.256.1", "1.2.3.4.5", "1.2.3.4.5.", "1..2", ".1", "1.", "1..", "..1", ".",
+	"16777215", "16777216", "1.16777215", "1.16777216", "4294967295", "4294967296", "256.1", "256.1.1.1", "1.256.1.1", "1.1.256.1", "1.2.3.4.5", "1.2.3.4.5.", "1.2.3.4.0", "0.0.0.0.0", "1.2.3.4.0x0.", "1.2.3.4.5.0", "0.1.2.3.4", "1..2", ".1", "1.", "1..", "..1", ".",
 	"0x", "0X", "0x.", "0X.0x", "0x.0x.0x.0x", "08", "09", "018", "0x100000000", "0xffffffff", "0xFFFFFFFF.", "037777777777", "040000000000", "00000000000000000000000001",
 	"99999999999999999999", "18446744073709551616", "9223372036854775808", "0x10000000000000000", "0x7fffffffffffffff", "0xffffffffffffffffffffffffffffffffffffffffg", "0XFfFfFfFfFfFfFfFfFfAcE_3", "0xfffffffffffffffffffffff+1",
 	"+1", "-1", "1.+2", "1.-2", "0x+f", "0x-1", "+0x1", "-0", "1.2.3.+4", "0+1", "1e3", "1_0", "0xg", "0x1g", "1g", "a.1", "a.0x1", "a.1.", "1.a", "a.b.c.d.1", "g.1.2.3.4", "1.2.3.g", "x.0x", "0x1.0x2.g.4",
@@ -326,11 +326,19 @@ func Gen07(t *rapid.T) Case07 {
 			rest = uint64(v) & (1<<(32-8*uint(n-1)) - 1)
 		}
 		parts = append(parts, renderPart(t, rest, true))
+		c.Expect = "value:" + dotted(v)
+		// one or two numeric parts too many (each of them small, zero included): every part is a
+		// number, so the host ends in a number and the IPv4 parser must reject it
+		if n == 4 && rapid.IntRange(0, 5).Draw(t, "toomany") == 0 {
+			for i, k := 0, rapid.IntRange(1, 2).Draw(t, "extra"); i < k; i++ {
+				parts = append(parts, renderPart(t, uint64(rapid.SampledFrom([]int{0, 0, 1, 5, 255}).Draw(t, "extrapart")), true))
+			}
+			c.Expect = "reject"
+		}
 		host := strings.Join(parts, ".")
 		if rapid.IntRange(0, 3).Draw(t, "dot") == 0 {
 			host += "."
 		}
-		c.Expect = "value:" + dotted(v)
 		if rapid.IntRange(0, 5).Draw(t, "prefix") == 0 {
 			host = gen.Pick(t, "prefixlabels", []string{"a.", "a.b.", "g.", "x.y.z.", "0xg.", "-."}) + host
 			c.Expect = "reject"
